@@ -133,12 +133,15 @@ def materialise(sc, root):
                 front.append("append: [a1.md]")
         # names are chosen so that the order given on the command line is NOT the lexicographic order
         name = f"{'zyxw'[i]}-d{i + 1}." + ("md" if doc["fmt"] == "md" else "t")
+        if doc["fault"] == "nomatch":
+            name += ".txt"      # a file that is no test document by its name
         # with a directory argument the last document lives in a nested directory
         sub = os.path.join(docs_dir, "nested", "deeper") if sc.get("dirarg") and i == len(sc["docs"]) - 1 and i > 0 else docs_dir
         os.makedirs(sub, exist_ok=True)
         path = os.path.join(sub, name)
-        with open(path, "wb") as f:
-            f.write(render_doc(doc, doc["tests"], front, compat=sc.get("compat", False)))
+        if doc["fault"] != "missing":
+            with open(path, "wb") as f:
+                f.write(render_doc(doc, doc["tests"], front, compat=sc.get("compat", False)))
         paths.append(path)
     argv = list(paths)
     if sc.get("dirarg"):
@@ -169,6 +172,8 @@ def shared_applies(sc, i):
 
 
 def assembled(sc, i):
+    if sc["docs"][i]["fault"] == "nomatch":
+        return []
     sh = shared_applies(sc, i)
     return (sc["pre"] if sh else []) + sc["docs"][i]["tests"] + (sc["app"] if sh else [])
 
